@@ -192,6 +192,7 @@ fn scenario(lk: LoopKind, comb: Combine, side_left: bool, input: Vec<i64>, side:
         shards: 1,
         nontrivial: !side.is_empty() && rounds >= 2,
         unbounded: false,
+        loop_body: false,
     }
 }
 
